@@ -19,6 +19,23 @@ def mpn_harness(name, call, decl_extra='', ptrs=('rp', 'up', 'vp'), alias='same_
     s.append('}')
     return '\n'.join(s)
 
+def with_overlap(u, fname, call_args, lower, upper, extra_decl=''):
+    """second unit '<name>_ovl': the two buffers are one block, `lower` starts at its base and `upper`
+    `off` limbs above (0 <= off <= n): every partial overlap in the direction the manual permits."""
+    v = dict(u)
+    v['name'] = u['name'] + '_ovl'
+    v['harness'] = """void h_%s (void) {
+  mp_size_t n = nondet_long (); __CPROVER_assume (1 <= n && n <= V_NMAX);
+  gk = nondet_long (); gj = nondet_long ();
+  mp_size_t off = nondet_long (); __CPROVER_assume (0 <= off && off <= n);
+  mp_limb_t *big = malloc ((n + off) * 8); __CPROVER_assume (big != (void *) 0);
+  mp_limb_t *%s = big, *%s = big + off;
+  %s
+  %s (%s);
+}""" % (v['name'], lower, upper, extra_decl, fname, call_args)
+    v['selftest'] = []
+    return [u, v]
+
 # ------------------------------------------------------------------ mpn_add_n / mpn_sub_n
 def aors_n(op):
     rel = 'V_ADDREL' if op == 'add' else 'V_SUBREL'
@@ -50,3 +67,95 @@ def aors_n(op):
     )
 
 UNITS.append(aors_n('add'))
+UNITS.append(aors_n('sub'))
+
+# ------------------------------------------------------------------ reusable cut of the expanded MPN_COPY_INCR / MPN_COPY_DECR loop
+def copy_loop(K, direction='incr', tag=''):
+    """loop of MPN_COPY_INCR/DECR after macro expansion (locals __n, __dst, __src, __x).
+    K: ghost position relative to the copy's dst/src base; total length is V_cn+1.
+    After the cut + the macro's final store: K in [0,V_cn] ==> dst[K] == value src[K] had before the copy."""
+    if direction == 'incr':
+        snap = 'mp_size_t V_cn = __n; mp_ptr V_cd = __dst; mp_srcptr V_cs = __src - 1; long V_cK = (K); mp_limb_t V_cS = (0 <= V_cK && V_cK <= V_cn) ? V_cs[V_cK] : 0;'
+        inv = '''(1 <= __n && __n <= V_cn && __dst == V_cd + (V_cn - __n) && __src == V_cs + (V_cn - __n) + 1
+          && ((0 <= V_cK && V_cK <= V_cn) ==> ((V_cK > V_cn - __n ==> V_cs[V_cK] == V_cS) && (V_cK == V_cn - __n ==> __x == V_cS)
+                                            && (V_cK < V_cn - __n ==> V_cd[V_cK] == V_cS))))'''
+        hv = '{ long V_d = nondet_long (); __CPROVER_assume (0 <= V_d && V_d < V_cn); __n = V_cn - V_d; __dst = V_cd + V_d; __src = V_cs + V_d + 1; }'
+    else:
+        # DECR: __dst = dst + (n-1), walks down.  Position of the limb held in __x is p = __n (counting from the base), V_cd/V_cs are bases.
+        snap = 'mp_size_t V_cn = __n; mp_ptr V_cd = __dst - __n; mp_srcptr V_cs = __src + 1 - __n; long V_cK = (K); mp_limb_t V_cS = (0 <= V_cK && V_cK <= V_cn) ? V_cs[V_cK] : 0;'
+        inv = '''(1 <= __n && __n <= V_cn && __dst == V_cd + __n && __src == V_cs + __n - 1
+          && ((0 <= V_cK && V_cK <= V_cn) ==> ((V_cK < __n ==> V_cs[V_cK] == V_cS) && (V_cK == __n ==> __x == V_cS)
+                                            && (V_cK > __n ==> V_cd[V_cK] == V_cS))))'''
+        hv = '{ long V_d = nondet_long (); __CPROVER_assume (1 <= V_d && V_d <= V_cn); __n = V_d; __dst = V_cd + V_d; __src = V_cs + V_d - 1; }'
+    return dict(snap=snap.replace('(K)', '(%s)' % K), inv=inv, dec='__n', havoc=hv,
+                scalars=['__x'], havoc_targets=['__n', '__dst', '__src'],
+                slices=[('V_cd', '(V_cn + 1) * 8')])
+
+for d, f in (('incr', 'copyi'), ('decr', 'copyd')):
+    UNITS.extend(with_overlap(dict(
+        name='mpn_' + f, props=['C03', 'C05', 'C04', 'C15'], source='mpn/generic/%s.c' % f, contracts=['mpn.h'],
+        enforce=['__gmpn_' + f],
+        functions={'__gmpn_' + f: dict(loops={0: copy_loop('gk', d)})},
+        harness=mpn_harness('mpn_' + f, '__gmpn_%s (rp, sp, n);' % f, ptrs=('rp', 'sp')),
+        selftest=[('__gmpn_' + f, r'while \(--__n\)', 'while (--__n > 1)')],
+    ), '__gmpn_' + f, 'rp, sp, n', *(('rp', 'sp') if d == 'incr' else ('sp', 'rp'))))
+
+UNITS.append(dict(
+    name='mpn_zero', props=['C03', 'C04', 'C15'], source='mpn/generic/zero.c', contracts=['mpn.h'],
+    enforce=['__gmpn_zero'],
+    functions={'__gmpn_zero': dict(
+        entry='mp_size_t V_n0 = n; mp_ptr V_rp0 = rp;',
+        loops={0: dict(scalars=['i'], slices=[('V_rp0', 'V_n0 * 8')],
+                       inv='(rp == V_rp0 + V_n0 && n == V_n0 && -V_n0 <= i && i <= 0 && (gk < V_n0 + i ==> V_rp0[gk] == 0))', dec='-i')})},
+    harness=mpn_harness('mpn_zero', '__gmpn_zero (rp, n);', ptrs=('rp',)),
+    selftest=[('__gmpn_zero', r'i = -n', 'i = -n + 1')],
+))
+
+UNITS.append(dict(
+    name='mpn_com_n', props=['C03', 'C10', 'C05', 'C04', 'C15'], source='mpn/generic/com_n.c', contracts=['mpn.h'],
+    enforce=['__gmpn_com_n'],
+    functions={'__gmpn_com_n': dict(
+        entry='mp_size_t V_n0 = n; mp_ptr V_rp0 = rp; mp_srcptr V_up0 = up; mp_limb_t V_u = up[gk];',
+        loops={0: dict(scalars=['ul', 'n'], havoc_targets=['up', 'rp'],
+                       havoc='{ long V_d = nondet_long (); __CPROVER_assume (0 <= V_d && V_d < V_n0); up = V_up0 + V_d; rp = V_rp0 + V_d; }',
+                       slices=[('V_rp0', 'V_n0 * 8')],
+                       inv='''(1 <= n && n <= V_n0 && up == V_up0 + (V_n0 - n) && rp == V_rp0 + (V_n0 - n)
+                           && (gk >= V_n0 - n ==> V_up0[gk] == V_u) && (gk < V_n0 - n ==> V_rp0[gk] == ~V_u))''', dec='n')})},
+    harness=mpn_harness('mpn_com_n', '__gmpn_com_n (rp, up, n);', ptrs=('rp', 'up')),
+    selftest=[('__gmpn_com_n', r'~ul', 'ul')],
+))
+
+# ------------------------------------------------------------------ shifts
+UNITS.extend(with_overlap(dict(
+    name='mpn_lshift', props=['C03', 'C05', 'C04', 'C15'], source='mpn/generic/lshift.c', contracts=['mpn.h'],
+    enforce=['__gmpn_lshift'],
+    functions={'__gmpn_lshift': dict(
+        entry='mp_size_t V_n0 = n; mp_ptr V_rp0 = rp; mp_srcptr V_up0 = up; mp_limb_t V_u = up[gk], V_ul = up[gk - (gk > 0)];',
+        # at loop head: i limbs (indices 0..i-1) still to read; low_limb == old up[i]; rp/up point at index i+1 / i
+        loops={0: dict(scalars=['i', 'low_limb', 'high_limb'], havoc_targets=['up', 'rp'],
+                       havoc='{ __CPROVER_assume (0 <= i && i <= V_n0 - 1); up = V_up0 + i; rp = V_rp0 + i + 1; }',
+                       slices=[('V_rp0', 'V_n0 * 8')],
+                       inv='''(0 <= i && i <= V_n0 - 1 && up == V_up0 + i && rp == V_rp0 + i + 1 && tnc == 64 - cnt && 1 <= cnt && cnt <= 63 && n == V_n0
+                           && (gk < i ==> V_up0[gk] == V_u) && (0 < gk && gk <= i ==> V_up0[gk - 1] == V_ul)
+                           && (gk == i ==> high_limb == (V_u << cnt))
+                           && (gk > i ==> V_rp0[gk] == ((V_u << cnt) | (V_ul >> (64 - cnt)))))''', dec='i')})},
+    harness=mpn_harness('mpn_lshift', 'unsigned cnt; __gmpn_lshift (rp, up, n, cnt);', ptrs=('rp', 'up')),
+    selftest=[('__gmpn_lshift', r'retval = low_limb >> tnc', 'retval = low_limb >> cnt'),
+              ('__gmpn_lshift', r'i != 0', 'i > 1')],
+), '__gmpn_lshift', 'rp, up, n, cnt', 'up', 'rp', 'unsigned cnt;'))
+UNITS.extend(with_overlap(dict(
+    name='mpn_rshift', props=['C03', 'C05', 'C04', 'C15'], source='mpn/generic/rshift.c', contracts=['mpn.h'],
+    enforce=['__gmpn_rshift'],
+    functions={'__gmpn_rshift': dict(
+        entry='mp_size_t V_n0 = n; mp_ptr V_rp0 = rp; mp_srcptr V_up0 = up; mp_limb_t V_u = up[gk], V_uh = up[gk + (gk < n - 1)];',
+        # at loop head: j = n-1-i limbs written; low_limb == old up[j] >> cnt; up at j+1, rp at j
+        loops={0: dict(scalars=['i', 'low_limb', 'high_limb'], havoc_targets=['up', 'rp'],
+                       havoc='{ __CPROVER_assume (0 <= i && i <= V_n0 - 1); up = V_up0 + (V_n0 - i); rp = V_rp0 + (V_n0 - 1 - i); }',
+                       slices=[('V_rp0', 'V_n0 * 8')],
+                       inv='''(0 <= i && i <= V_n0 - 1 && up == V_up0 + (V_n0 - i) && rp == V_rp0 + (V_n0 - 1 - i) && tnc == 64 - cnt && 1 <= cnt && cnt <= 63 && n == V_n0
+                           && (gk > V_n0 - 1 - i ==> V_up0[gk] == V_u) && (gk < V_n0 - 1 && gk >= V_n0 - 1 - i ==> V_up0[gk + 1] == V_uh)
+                           && (gk == V_n0 - 1 - i ==> low_limb == (V_u >> cnt))
+                           && (gk < V_n0 - 1 - i ==> V_rp0[gk] == ((V_u >> cnt) | (V_uh << (64 - cnt)))))''', dec='i')})},
+    harness=mpn_harness('mpn_rshift', 'unsigned cnt; __gmpn_rshift (rp, up, n, cnt);', ptrs=('rp', 'up')),
+    selftest=[('__gmpn_rshift', r'low_limb = high_limb >> cnt;\s*for', 'low_limb = high_limb >> tnc; for')],
+), '__gmpn_rshift', 'rp, up, n, cnt', 'rp', 'up', 'unsigned cnt;'))
